@@ -83,7 +83,8 @@ theorem step_stopping_reqFree {s : St} (h : SInv s) (cfg : Cfg) (e : Ev) (hst : 
     · cases r with
       | err e => exact reqFree_of_bg (BG_andThen (rejoinAfterError_bg _ _ _) (fun _ => BG_nil))
       | ok m g leader n =>
-        simp only []
+        simp only [abandonHb_eq, andThen_snd]
+        refine reqFree_append (by split <;> first | exact reqFree_nil | (intro o ho; simp at ho; subst ho; rfl)) ?_
         first
           | exact reqFree_nil
           | (split
@@ -241,10 +242,11 @@ theorem step_req_keeps_stopping (cfg : Cfg) (s : St) (e : Ev) :
     · cases r with
       | err e => exact vac (reqFree_of_bg (BG_andThen (rejoinAfterError_bg _ _ _) (fun _ => BG_nil)))
       | ok m g leader n =>
-        simp only []
+        simp only [abandonHb_eq, andThen_fst]
+        intro _
         split
-        · intro _; rfl
-        · split <;> (intro _; rfl)
+        · rfl
+        · split <;> rfl
   | partsDone r =>
     simp only [step]
     split
